@@ -429,6 +429,17 @@ func (u *clientUpdater) updateService(ctx context.Context, service ServiceDefini
 	if err != nil {
 		return fmt.Errorf("failed to wipe on testSeed change (service=%s, testSeed=%s): %w", service.ID, seed, err)
 	}
+	if currentTimestamp > 0 {
+		// If the store was just wiped, the presentations above were requested using a timestamp of the previous seed,
+		// so entries before that timestamp are missing. Skip them, the next update starts over from the beginning.
+		newTimestamp, err := u.store.getTimestamp(service.ID)
+		if err != nil {
+			return err
+		}
+		if newTimestamp == 0 {
+			return nil
+		}
+	}
 	for _, presentation := range presentations {
 		// Check if the presentation already exists
 		credentialSubjectID, err := credential.PresentationSigner(presentation)
